@@ -8,7 +8,7 @@ ENGINES = [SEQ, CONC]
 
 ASSUMPTIONS = [
     "schedule/program/caller-count quantifier: discharged on the section-level model coq/Cache/Loader.v by proof (invariant over all schedules, Proofs/LoaderProofs.v); NOT by the runs below",
-    "tie of the model's section order to cache/src/{handles/sync.rs,handles/futures.rs,shared.rs,loader.rs}: (i) sequential D1 on the K2 projection of the same step function (every call run to quiescence), (ii) gate/pause-driven concurrent scenarios whose outputs are schedule-independent counts, (iii) the section sequence written in docs/C15.md reviewed by hand -- partial: no per-section trace of the real execution is checked",
+    "tie of the model's section order to cache/src/{handles/sync.rs,handles/futures.rs,shared.rs,loader.rs}: (i) sequential D1 on the K2 projection of the same step function (every call run to quiescence), (ii) gate/pause-driven concurrent scenarios whose outputs are schedule-independent counts (tpause pins map-write before marker removal, reinv pins marker removal before completion), (iii) the section sequence written in docs/C15.md reviewed by hand -- partial: no per-section trace of the real execution is checked",
     "a critical section (shard map read/write lock, pending_loads stripe mutex, LoadFuture inner mutex) is one atomic model step; lock implementations (HybridRwLock/HybridMutex, parking_lot) and std::thread::park/unpark (one token, spurious return allowed) are modelled, not verified; sequential consistency",
     "marker insertion and task spawn are one step (nothing observable happens between them); Cache::insert/remove/run_maintenance are single atomic steps in the concurrent model (they are not C15's subject); stripes are abstracted to per-key markers, a failing stripe try_lock is a nondeterministic bit",
     "async handle/loader (handles/futures.rs, Loader::Async arm) follow the same section sequence by reading; they are tied by the same D1/scenario runs (L=a, H=a) but have no separate model of waker registration",
@@ -55,7 +55,7 @@ MANIFEST = {
                  "path": "coq/Cache/Loader.v, coq/Proofs/LoaderProofs.v, coq/Props/C15.v, coq/Props/C12_stale.v, ocaml/eng_loader.ml, harness/seqdrv/src/bin/loader.rs, vlib/engines_loader.py",
                  "kind": "K3' section-level machine (one step = one lock-protected critical section or atomic action of a caller or loader task); invariant proved for all caller programs and schedules; K2 projection of the same step function tied by D1; gate/pause-driven concurrent scenarios on the real code"}],
     "technique": "Coq proof of an inductive invariant of the section-level loader model over all schedules, caller counts and programs + differential correspondence of the extracted step function (sequential projection and scenario schedules) against fibre_cache's fetch_with on the same cases",
-    "text": "Coq theorems (Props/C15.v), for every number of callers, every caller program and every schedule: each LoadFuture is completed exactly once and its completion wakes every registered waiter; a caller blocked in park always waits on a still-Computing future of its own key whose loader task is enabled (no_waiter_left), hence no reachable quiescent state has a caller inside fetch_with; every caller that joined a future returns the loader's value, which is the value written to the map with its cost; futures are per key and the loader closure runs outside every lock. The full statement 'at most one load of k between two invalidations/expiries of k' is REFUTED on the faithful model by the late-arrival schedule (C15_single_flight_refuted_F22) and the schedule is reproduced deterministically on the real code (known finding F-22, no library hook needed: the harness parks the late caller inside its own Hash impl). Proved instead: loads of one key never overlap, and a later load exists only if its creator read the map before the earlier value was written (late arrival) or after an invalidation/expiry event that followed the write (C15_single_flight_except_late_arrival). The schedule quantifier is discharged on the model by proof; the model's section order is tied to the code by the sequential D1, the gated scenarios and a hand-reviewed section table (docs/C15.md) -- partial.",
+    "text": "Coq theorems (Props/C15.v), for every number of callers, every caller program and every schedule: each LoadFuture is completed exactly once and its completion wakes every registered waiter; a caller blocked in park always waits on a still-Computing future of its own key whose loader task is enabled (no_waiter_left), hence no reachable quiescent state has a caller inside fetch_with; every caller that joined a future returns the loader's value, which is the value written to the map with its cost; futures are per key and the loader closure runs outside every lock; a future still registered in the pending map is never completed (marker removal precedes completion, C15_no_join_after_completion), so once every load of k has completed a later miss on k -- after invalidation or expiry -- starts a new load and cannot be handed an earlier value (C15_miss_after_completion_starts_new_load). The full statement 'at most one load of k between two invalidations/expiries of k' is REFUTED on the faithful model by the late-arrival schedule (C15_single_flight_refuted_F22) and the schedule is reproduced deterministically on the real code (known finding F-22, no library hook needed: the harness parks the late caller inside its own Hash impl). Proved instead: loads of one key never overlap, and a later load exists only if its creator read the map before the earlier value was written (late arrival) or after an invalidation/expiry event that followed the write (C15_single_flight_except_late_arrival). The schedule quantifier is discharged on the model by proof; the model's section order is tied to the code by the sequential D1, the gated scenarios and a hand-reviewed section table (docs/C15.md) -- partial.",
     "design_ref": "DESIGN.md §8 C15, §9 F-22, §7 cache engines",
     "note": "Trusted: Coq kernel, ExtrOcamlBasic extraction + OCaml driver, harness/generators/monitors. Modelled not verified: lock primitives, park/unpark, SC, async waker path, section atomicity of insert/remove/maintenance.",
 }
